@@ -7,6 +7,7 @@ from fractions import Fraction
 
 from ..core import frac
 from . import _call as K
+from . import _c15ext5 as _ext5
 
 LEVEL = "proof"
 RULE = ("center_all on tables of 1..24 chromosomes (chr / plain names, or none named like autosomes) x 4 estimators x "
@@ -17,7 +18,9 @@ RULE = ("center_all on tables of 1..24 chromosomes (chr / plain names, or none n
         "and through the `sex` report (do_sex; one in three via `cnvkit.py sex FILE [-y] -o OUT`); bounded ADVERSARIAL noise "
         "(every bin within d of its level, d inside and outside the proved margin 1/4; flat / tiny / noisy autosomes; X noise "
         "pushed towards the other sex) against the margin theorem and the exact Mood-table model (`sex_margin`); a share of the centring "
-        "cases through `cnvkit.py call -m none --center [EST] [--drop-low-coverage] [--diploid-parx-genome G]`. non-trivial = table has >= 2 chromosomes and a sex "
+        "cases through `cnvkit.py call -m none --center [EST] [--drop-low-coverage] [--diploid-parx-genome G]`; the glue of the sex "
+        "inference (`sex_glue`: compare_sex_chromosomes with skip_low / PAR genome, its early returns and chrY fall-backs, guess_xx, "
+        "the do_sex / `cnvkit.py sex` row) on tables with and without chrX / chrY / autosome-like names / low bins / weights. non-trivial = table has >= 2 chromosomes and a sex "
         "chromosome or a null-coverage bin; distinct by hash")
 EXHAUSTIVE = {"quick": False, "thorough": False}
 ASSUMPTIONS = ["mode/biweight estimators: only the clauses 'uniform shift' and 're-centering changes nothing' are checked "
@@ -225,6 +228,7 @@ def gen_cases(rng, tier):
     mrng = random.Random(rng.random())
     for k in range({"quick": 240, "thorough": 2400, "search": 400}[tier]):
         cases.append(_margin_case(mrng, k))
+    cases.extend(_ext5.gen_cases(random.Random(rng.random()), tier))   # round 5: after everything else
     return cases
 
 
@@ -291,6 +295,8 @@ def run_impl(case):
     import numpy as np
     i = case["in"]
     op = case["op"]
+    if op in _ext5.EXT_OPS:
+        return _ext5.run_impl(case)
     if op in ("center", "expect_flat", "shift_xx"):
         rows = [[r[0], r[1], r[2], "G", r[3]] + ([r[4]] if r[4] is not None else []) for r in i["rows_f"]]
         has_depth = any(r[4] is not None for r in i["rows_f"])
@@ -438,6 +444,8 @@ def to_line(case, impl):
     i = case["in"]
     op = case["op"]
     err = isinstance(impl, dict) and "__error__" in impl
+    if op in _ext5.EXT_OPS:
+        return _ext5.to_line(case, impl, err)
     if op == "sex_oracle":
         return {"op": "sex_oracle", "in": {}}
     if op == "sex_margin":
@@ -465,6 +473,8 @@ def to_line(case, impl):
 
 def judge(case, impl, resp):
     op = case["op"]
+    if op in _ext5.EXT_OPS:
+        return _ext5.judge(case, impl, resp, isinstance(impl, dict) and "__error__" in impl)
     if isinstance(impl, dict) and "__error__" in impl:
         return ["raises_" + impl["__error__"]], [], None
     if "error" in resp:
@@ -534,6 +544,8 @@ def judge(case, impl, resp):
 
 
 def nontrivial(case, impl, resp):
+    if case["op"] in _ext5.EXT_OPS:
+        return _ext5.nontrivial(case, impl, resp)
     rows = case["in"].get("rows_f") or []
     chroms = {r[0] for r in rows}
     sexy = any(c.replace("chr", "") in ("X", "Y") for c in chroms)
